@@ -51,6 +51,7 @@ class Report:
         self.assumptions = []
         self.explanation = ""
         self.notes = []
+        self.floor_failures = []
 
     # --- obligations -------------------------------------------------
     def ob(self, rule, key, ok, file="", line=0, detail=""):
@@ -64,9 +65,9 @@ class Report:
             counted = sum(1 for o in self.obls if o["rule"] == rule)
         self.floors[rule] = (minimum, counted)
         if counted < minimum:
-            raise AnalysisError(
-                f"rule {rule}: matched {counted} instances, floor is {minimum} (anchor missing / extractor drift)"
-            )
+            # deferred: a violation found elsewhere must still be reported as a violation (see finish)
+            self.floor_failures.append(
+                f"rule {rule}: matched {counted} instances, floor is {minimum} (anchor missing / extractor drift)")
 
     def note(self, s):
         self.notes.append(s)
@@ -98,7 +99,11 @@ class Report:
             f"[{self.pid}] tier={self.tier} obligations={n} discharged={n-len(bad)} "
             f"known_findings={len(kf)} violations={len(viols)} wall={time.time()-self.t0:.1f}s"
         )
-        return 1 if viols else 0
+        if viols:
+            return 1
+        if self.floor_failures:
+            raise AnalysisError("; ".join(self.floor_failures))
+        return 0
 
     def write_evidence(self, nviol, kf):
         n = len(self.obls)
